@@ -120,7 +120,23 @@ def exec_job(job):
         else:
             import nunavut
             a = dict(job["api"])
-            nunavut.generate_types(a.pop("language_key"), a.pop("root_namespace_dir"), a.pop("out_dir"), **a)
+            if "templates_dir" in a or "support_templates_dir" in a:
+                # generate_types() has no template arguments: the same steps through the public building blocks
+                import pathlib, pydsdl
+                from nunavut.lang import LanguageContextBuilder, Language
+                lctx = (LanguageContextBuilder(include_experimental_languages=a.get("include_experimental_languages", False))
+                        .set_target_language(a["language_key"])
+                        .set_target_language_configuration_override(Language.WKCV_LANGUAGE_OPTIONS, a.get("language_options") or {}).create())
+                types = pydsdl.read_namespace(str(a["root_namespace_dir"]), a.get("lookup_directories") or [])
+                ns = nunavut.build_namespace_tree(types, str(a["root_namespace_dir"]), str(a["out_dir"]), lctx)
+                kw = {k: pathlib.Path(a[k]) for k in ("templates_dir", "support_templates_dir") if k in a}
+                from nunavut.jinja import DSDLCodeGenerator, SupportGenerator
+                gen, sup = DSDLCodeGenerator(ns, **kw), SupportGenerator(ns, **kw)
+                omit, audit = a.get("omit_serialization_support", True), a.get("embed_auditing_info", False)
+                sup.generate_all(False, True, omit, audit)
+                gen.generate_all(False, True, omit, audit)
+            else:
+                nunavut.generate_types(a.pop("language_key"), a.pop("root_namespace_dir"), a.pop("out_dir"), **a)
     except BaseException as e:  # the generator failed: that is an observation, not a harness failure
         res["rc"] = 1
         res["err"] = "".join(traceback.format_exception_only(type(e), e))[-400:]
@@ -210,6 +226,14 @@ USER_TEMPLATE = ("\n\n\n// {{ T.full_name }}\n"
                  "{{ '\\n' * ((T.attributes | length) % 3) }}")
 
 
+# A user template that prints every global of the `nunavut` namespace a template can legitimately reach (the whole namespace
+# through its repr, and the documented members by name).  With auditing off none of them may depend on ambient state.
+PROBE_TEMPLATE = ("// {{ T.full_name }}\n// all: {{ nunavut }}\n// version: {{ nunavut.version }}\n// template_sets: {{ nunavut.template_sets }}\n"
+                  "{% for ts in nunavut.template_sets %}//   set {{ loop.index }}: {{ ts[0] }} | {{ ts[1] }} | {{ ts[2] }}\n{% endfor %}"
+                  "// platform: {{ nunavut.platform_version }}\n// support: {{ nunavut.support }}\n// auditing: {{ nunavut.embed_auditing_info }}\n"
+                  "// options: {{ options }}\n")
+
+
 def shape_inputs(iid, shape):
     """The namespace shape of a model record as real DSDL.  shape: {"types": [{"ns": [..], "k": k}...] in rank order,
     "user": index|0, "dep": none|star|chain}.  Dependencies as in GenRepro.tla: star = the `user` type has a field of every
@@ -236,6 +260,7 @@ def shape_inputs(iid, shape):
             lines += [["int13 v%d" % i, "void3", "@extent 64"], ["float16[<=3] w%d" % i, "uint8 x", "@sealed"], ["uint8 x%d" % i, "@sealed"]][i % 3]
         files[rel] = "\n".join(lines) + "\n"
     files["tpl/Any.j2"] = USER_TEMPLATE
+    files["tplg/Any.j2"] = PROBE_TEMPLATE
     return Inputs(iid, "shape:" + json.dumps(shape, separators=(",", ":")), files, shape=shape)
 
 
@@ -322,6 +347,7 @@ def rand_inputs(iid, rng, n_types, n_ns):
                 files["in/%s/%s.1.1.dsdl" % ("/".join((ROOT,) + ns), name)] = "\n".join(lines[:-1] + ["uint8 added_in_1_1", lines[-1]]) + "\n"
                 known.append(full + ".1.1")
     files["tpl/Any.j2"] = USER_TEMPLATE
+    files["tplg/Any.j2"] = PROBE_TEMPLATE
     return Inputs(iid, "rand:%d types/%d namespaces/%s" % (n_types, n_ns, sha(json.dumps(files, sort_keys=True))[:8]), files, lookups=["extlib"])
 
 
@@ -353,6 +379,7 @@ def fixed_inputs(iid):
         "in/vroot/zeta/Last.1.0.dsdl": "# uses a sibling namespace\nvroot.sub.deep.Leaf.1.1[2] ls\nvroot.other.Oth.1.0 o\n@sealed\n",
         "lk/extlib/Base.1.0.dsdl": "uint32 z\n@sealed\n",
         "tpl/Any.j2": USER_TEMPLATE,
+        "tplg/Any.j2": PROBE_TEMPLATE,
     }
     return Inputs(iid, "fixed", files, lookups=["extlib"])
 
@@ -369,6 +396,7 @@ def repo_inputs(ctx):
         sub = "in/regulated/delimited/" if root == "regulated" else "in/mymsgs/"
         files = {sub + f.name: f.read_text() for f in fs}
         files["tpl/Any.j2"] = USER_TEMPLATE
+        files["tplg/Any.j2"] = PROBE_TEMPLATE
         res.append((root, files))
     return res
 
@@ -400,21 +428,26 @@ CLI_OPTION_SETS = {
     "c": [[], ["--omit-serialization-support"], ["--pp-max-emptylines", "1", "--pp-trim-trailing-whitespace"],
           ["--templates", "{tpl}"], ["--target-endianness", "little", "--enable-serialization-asserts"],
           ["--enable-override-variable-array-capacity", "--omit-float-serialization-support"], ["--generate-support", "never"],
-          ["--output-extension", ".hh", "--file-mode", "0o644"], ["--pp-run-program", "true"], ["--generate-support", "always"]],
+          ["--output-extension", ".hh", "--file-mode", "0o644"], ["--pp-run-program", "true"], ["--generate-support", "always"],
+          ["--templates", "{btpl}"], ["--templates", "{btpl}", "--support-templates", "{bsup}"], ["--templates", "{tplg}"]],
     "cpp": [[], ["--language-standard", "c++17-pmr"], ["--omit-serialization-support"],
             ["--pp-max-emptylines", "2", "--pp-trim-trailing-whitespace"], ["--language-standard", "cetl++14-17"],
-            ["--language-standard", "c++17", "--enable-serialization-asserts"], ["--templates", "{tpl}", "--pp-max-emptylines", "1"]],
+            ["--language-standard", "c++17", "--enable-serialization-asserts"], ["--templates", "{tpl}", "--pp-max-emptylines", "1"],
+            ["--templates", "{btpl}"], ["--templates", "{btpl}", "--support-templates", "{bsup}"], ["--templates", "{tplg}"],
+            ["--support-templates", "{bsup}"]],
     "py": [[], ["--generate-namespace-types"], ["--omit-serialization-support"], ["--pp-trim-trailing-whitespace"],
-           ["--pp-run-program", "true"], ["--generate-support", "never"]],
+           ["--pp-run-program", "true"], ["--generate-support", "never"],
+           ["--templates", "{btpl}"], ["--templates", "{btpl}", "--support-templates", "{bsup}"], ["--templates", "{tplg}"]],
     "html": [[], ["--generate-namespace-types"], ["--pp-max-emptylines", "1", "--pp-trim-trailing-whitespace"],
-             ["--namespace-output-stem", "contents"]],
+             ["--namespace-output-stem", "contents"], ["--templates", "{btpl}"], ["--templates", "{tplg}"]],
 }
 API_OPTION_SETS = {
     "c": [{"omit_serialization_support": False}, {"omit_serialization_support": True},
           {"omit_serialization_support": False, "language_options": {"target_endianness": "big"}}],
-    "cpp": [{"omit_serialization_support": False}, {"omit_serialization_support": False, "language_options": {"std": "c++17"}}],
-    "py": [{"omit_serialization_support": False}],
-    "html": [{"omit_serialization_support": True}],
+    "cpp": [{"omit_serialization_support": False}, {"omit_serialization_support": False, "language_options": {"std": "c++17"}},
+            {"omit_serialization_support": False, "templates_dir": "{btpl}", "support_templates_dir": "{bsup}"}],
+    "py": [{"omit_serialization_support": False}, {"omit_serialization_support": False, "templates_dir": "{tplg}"}],
+    "html": [{"omit_serialization_support": True}, {"omit_serialization_support": True, "templates_dir": "{btpl}"}],
 }
 LANGS = ["c", "cpp", "py", "html"]
 
@@ -544,6 +577,17 @@ class Lab:
             self.copies[key] = base
         return self.copies[key]
 
+    def builtin_copy(self, base, kind, lang):
+        """a byte-identical copy of the built-in template set (kind templates) / support templates (kind support) of a target,
+        taken from the tree under test and placed next to the inputs, so it moves with them"""
+        dst = base / ("btpl" if kind == "templates" else "bsup") / lang
+        if not dst.exists():
+            src = REPO / "src" / "nunavut" / "lang" / lang / kind
+            if not src.is_dir():
+                raise MachineryFailure("built-in %s of target %s not found at %s" % (kind, lang, src))
+            shutil.copytree(src, dst, ignore=shutil.ignore_patterns("__pycache__", "*.pyc"))
+        return dst
+
     def drop_copies(self, inputs):
         for loc in list(self.LOCS):
             p = self.copies.pop((inputs.id, loc), None)
@@ -563,17 +607,25 @@ class Lab:
         job = {"id": self.nrun, "front": opts.front, "cwd": str(cwd), "clock": amb["clock"], "tz": amb["tz"], "out": str(out),
                "as_main": amb["proc"] == "sub"}
         lk = [sp(base / "lk" / l) for l in inputs.lookups]
+
+        def fill(a):
+            if "{btpl}" in a:
+                a = a.replace("{btpl}", sp(self.builtin_copy(base, "templates", opts.lang)))
+            if "{bsup}" in a:
+                a = a.replace("{bsup}", sp(self.builtin_copy(base, "support", opts.lang)))
+            return a.replace("{tplg}", sp(base / "tplg")).replace("{tpl}", sp(base / "tpl"))
+
         if opts.front == "cli":
             argv = ["--experimental-languages", "-l", opts.lang, "-O", sp(out)]
             for l in lk:
                 argv += ["--lookup-dir", l]
-            argv += [a.replace("{tpl}", sp(base / "tpl")) for a in opts.args]
+            argv += [fill(a) for a in opts.args]
             if opts.audit:
                 argv.append("--embed-auditing-info")
             argv.append(sp(base / "in" / inputs.root))
             job["argv"] = argv
         else:
-            api = dict(opts.api)
+            api = {k: (fill(v) if isinstance(v, str) else v) for k, v in opts.api.items()}
             api.update(language_key=opts.lang, root_namespace_dir=sp(base / "in" / inputs.root), out_dir=sp(out), lookup_directories=lk,
                        include_experimental_languages=True, embed_auditing_info=bool(opts.audit))
             job["api"] = api
@@ -908,7 +960,9 @@ def validate(ctx, records, bin_size=120):
 # ------------------------------------------------------------------------------------------------------------------
 # model runs and stimuli derived from them
 # ------------------------------------------------------------------------------------------------------------------
-GATES = ["gzip_mtime", "ns_time", "model_abspath", "assert_abspath", "model_cache", "pp_carry", "include_order", "html_order", "filter_owner"]
+GATES = ["gzip_mtime", "ns_time", "model_abspath", "assert_abspath", "model_cache", "pp_carry", "include_order", "html_order", "filter_owner",
+         "template_dir_abspath", "template_dir_spelling"]
+AMBIENT_GATES = ("gzip_mtime", "ns_time", "model_abspath", "assert_abspath", "template_dir_abspath", "template_dir_spelling")
 
 
 def _tlc(ctx, cfg, workers):
@@ -990,6 +1044,9 @@ GATE_STIMULUS = {
     "pp_carry": [("c", ["--templates", "{tpl}"]), ("py", ["--templates", "{tpl}"]), ("cpp", ["--templates", "{tpl}", "--pp-max-emptylines", "1"]),
                  ("html", ["--templates", "{tpl}", "--pp-max-emptylines", "1"])],
     "filter_owner": [("c", []), ("py", []), ("html", []), ("cpp", [])],
+    # user template directories: a byte-identical copy of the target's built-in set, and the probe that prints every nunavut.* global
+    "template_dir_abspath": [(l, ["--templates", t]) for l in ("c", "cpp", "py", "html") for t in ("{btpl}", "{tplg}")],
+    "template_dir_spelling": [(l, ["--templates", t]) for l in ("c", "cpp", "py", "html") for t in ("{btpl}", "{tplg}")],
 }
 
 
@@ -1007,7 +1064,7 @@ def model_stimuli(ctx, camp, wit, orders):
     for w in wit:
         g = w["gates"][0]
         sk = shape_key(w["shape"])
-        if g in ("gzip_mtime", "ns_time", "model_abspath", "assert_abspath"):
+        if g in AMBIENT_GATES:
             amb_w.setdefault((g, w["lang"], tuple(sorted(w["dims"]))), collections.OrderedDict()).setdefault(sk, w)
         elif not w["dims"]:
             ord_w.setdefault((g, w["lang"], w["shape"]["dep"]), collections.OrderedDict()).setdefault(sk, w)
@@ -1034,6 +1091,8 @@ def model_stimuli(ctx, camp, wit, orders):
         chosen = [sks[0], sks[-1]] if len(sks) > 1 else sks
         if not q:
             chosen = sks[:: max(1, len(sks) // 6)]
+        if g.startswith("template_dir"):
+            chosen = sks[-1:] if q else [sks[0], sks[-1]]
         for sk in chosen:
             w = shapes[sk]
             for (l2, args) in GATE_STIMULUS[g]:
@@ -1041,7 +1100,8 @@ def model_stimuli(ctx, camp, wit, orders):
                     continue
                 i, o = inputs_for(w["shape"]), opts_for(lang, args)
                 var = ambient(clock=CLOCKS[0] if "clock" in dims else T0, tz="Asia/Tokyo" if "clock" in dims else "",
-                              loc="B" if "loc" in dims else "A", cwd="input" if "cwd" in dims else "work")
+                              loc="B" if "loc" in dims else "A", cwd="input" if "cwd" in dims else "work",
+                              spell="rel" if ("cwd" in dims and g.startswith("template_dir")) else "abs")
                 p = pairs.setdefault((i.id, o.id), (i, o, [], []))
                 if var not in p[2]:
                     p[2].append(var)
@@ -1103,7 +1163,7 @@ def model_stimuli(ctx, camp, wit, orders):
 def variants(rng, n_seeds, rich, front):
     """ambient variants of the reference run `ambient()`; single-dimension first, then combinations"""
     v = [ambient(clock=CLOCKS[0]), ambient(clock=T0, tz="Asia/Tokyo"), ambient(loc="B"), ambient(cwd="root"), ambient(spell="rel"),
-         ambient(seed=1), ambient(outloc="out"), ambient(proc="worker")]
+         ambient(cwd="base", spell="rel"), ambient(seed=1), ambient(outloc="out"), ambient(proc="worker")]
     if front == "cli":
         v.append(ambient(proc="plain", clock=None))
     v += [ambient(seed=s) for s in range(2, 2 + n_seeds)]
@@ -1145,15 +1205,16 @@ def random_campaign(ctx, camp):
             for k, args in enumerate(chosen):
                 rich = (k == 0 and (n == 0 or not q))
                 specs.append((i, camp.new_opts(lang, "cli", args), ambient(), variants(rng, ctx.pick(1, 4), rich, "cli") if (k == 0 or not q) else
-                              variants(rng, 1, False, "cli")[:7]))
+                              variants(rng, 1, False, "cli")[:8]))
             apis = API_OPTION_SETS[lang] if (not q or n == 0) else API_OPTION_SETS[lang][:1]
             for api in apis:
                 ref = ambient(proc="worker")
-                vs = [ambient(proc="worker", clock=CLOCKS[0]), ambient(proc="worker", loc="B"), ambient(proc="worker", seed=2),
+                vs = [ambient(proc="worker", clock=CLOCKS[0]), ambient(proc="worker", loc="B"), ambient(proc="worker", cwd="base", spell="rel"),
+                      ambient(proc="worker", seed=2),
                       ambient(proc="worker", seed=4, loc="C", cwd="root", clock=CLOCKS[1], spell="rel")]
                 if MY_SEED is not None:
-                    vs.insert(3, ambient(proc="inproc", seed=MY_SEED))
-                specs.append((i, camp.new_opts(lang, "api", api=api), ref, vs if (n == 0 or not q) else vs[:3]))
+                    vs.insert(4, ambient(proc="inproc", seed=MY_SEED))
+                specs.append((i, camp.new_opts(lang, "api", api=api), ref, vs if (n == 0 or not q) else vs[:4]))
     camp.groups(specs)
     for (i, o, _r, vs) in specs:
         ctx.distinct("r|%s|%s" % (o.label, i.name))
@@ -1269,7 +1330,9 @@ def run(ctx):
         ctx.sample({"direction": "spec->code", "model_witness": {k: w[k] for k in ("gates", "lang", "dims", "shape", "clause", "differ")}})
     ctx.cov["rule"] = ("spec->code: every (gate, target, ambient dimensions) witness of GenRepro.tla with an ambient gate open and %d shapes per "
                        "(order-borne gate, target) run through the real CLI under the two ambient states resp. PYTHONHASHSEED 0..%d; code->spec: "
-                       "fixed + seeded random namespace sets x 4 targets x CLI/API option sets x ambient variants (clock+TZ, hash seed, fresh "
+                       "fixed + seeded random namespace sets x 4 targets x CLI/API option sets (incl. user template directories that are byte-identical "
+                       "copies of each target's built-in template set / support templates, and a probe template printing every nunavut.* global, "
+                       "all moved and re-spelled with the inputs) x ambient variants (clock+TZ, hash seed, fresh "
                        "subprocess / plain `python -m nunavut` / long-lived worker / the check's interpreter, cwd, relative spelling, three "
                        "absolute locations of different length, output elsewhere); distinct = (front end, target, options, input set[, gates]); "
                        "non-trivial = every pair is run under at least 3 ambient states" % (ctx.pick(2, 12), ctx.pick(4, 8)))
